@@ -113,6 +113,18 @@ type bufWrite struct {
 	call ssa.CallInstruction
 	data []ssa.Value // data operands (non-receiver)
 	name string
+	sub  int // position within one call whose operand is a concatenation a + b + c (written in that order)
+}
+
+// concatOperands flattens a string concatenation into its operands, left to right.
+func concatOperands(v ssa.Value) []ssa.Value {
+	v = Unwrap(v)
+	if bo, ok := v.(*ssa.BinOp); ok && bo.Op == token.ADD {
+		if b, isB := bo.Type().Underlying().(*types.Basic); isB && b.Info()&types.IsString != 0 {
+			return append(concatOperands(bo.X), concatOperands(bo.Y)...)
+		}
+	}
+	return []ssa.Value{v}
 }
 
 func bufferWrites(fn *ssa.Function) []bufWrite {
@@ -136,7 +148,16 @@ func bufferWrites(fn *ssa.Function) []bufWrite {
 					data = append(data, a)
 				}
 			}
-			out = append(out, bufWrite{ci, data, n})
+			if len(data) == 1 && !strings.HasPrefix(n, "fmt.") {
+				if ops := concatOperands(data[0]); len(ops) > 1 {
+					// one write of a + b + c puts the same bytes into the buffer as three writes in that order
+					for i, o := range ops {
+						out = append(out, bufWrite{ci, []ssa.Value{o}, n, i})
+					}
+					continue
+				}
+			}
+			out = append(out, bufWrite{ci, data, n, 0})
 		}
 	}
 	return out
@@ -488,7 +509,7 @@ func c17Serialiser(c *Ctx, F *ssa.Function) {
 
 func writeOrdinal(ws []bufWrite, w bufWrite) int {
 	for i := range ws {
-		if ws[i].call == w.call {
+		if ws[i].call == w.call && ws[i].sub == w.sub {
 			return i
 		}
 	}
@@ -537,7 +558,7 @@ func c17Framing(c *Ctx, F *ssa.Function, writes []bufWrite, w bufWrite, V ssa.Va
 	}
 	i := -1
 	for j := range blk {
-		if blk[j].call == w.call {
+		if blk[j].call == w.call && blk[j].sub == w.sub {
 			i = j
 		}
 	}
@@ -565,8 +586,13 @@ func c17Framing(c *Ctx, F *ssa.Function, writes []bufWrite, w bufWrite, V ssa.Va
 		}
 		for _, d := range x.data {
 			if s, ok := constStringOrBytes(Unwrap(d)); ok {
-				whole := strings.HasSuffix(s, "\n") && strings.Count(s, "\n") == 1 && strings.Count(s, "=") == 1
-				c.Check(whole, "O4", fmt.Sprintf("%s:const-line(%q)", FnName(F), s), p.InstrPos(x.call), "constant write is one key=value line", "constant write is not exactly one LF-terminated key=value line")
+				whole := strings.HasSuffix(s, "\n")
+				for _, ln := range strings.Split(strings.TrimSuffix(s, "\n"), "\n") {
+					if strings.Count(ln, "=") != 1 {
+						whole = false
+					}
+				}
+				c.Check(whole, "O4", fmt.Sprintf("%s:const-line(%q)", FnName(F), s), p.InstrPos(x.call), "constant write consists of whole key=value lines", "constant write is not a sequence of LF-terminated key=value lines")
 			}
 		}
 	}
